@@ -106,7 +106,10 @@ impl C03 {
         let regime = if rng.chance(3, 4) { Regime::D } else { Regime::R };
         let np = 1 + rng.usize_below(5);
         let pool = id_pool(rng, np, true);
-        let cfg = FnCfg::new(pool.clone(), regime);
+        let mut cfg = FnCfg::new(pool.clone(), regime);
+        if rng.chance(1, 40) {
+            cfg.max_terms = 48;
+        }
         let f = gen_function(rng, &cfg);
         let vname = variant_name(&f);
         let occ = occurring_ids(&f);
